@@ -215,3 +215,49 @@ func c13Walk(h http.Handler, prefix, delimiter string, maxKeys, total int) (all 
 		keyMarker, verMarker = v.NextKeyMarker, v.NextVersionIDMarker
 	}
 }
+
+// VH_C13d: a delimited version listing over three keys (j, k/x, z): a page
+// may end right before the key that is rolled up into the common prefix k/,
+// and the keys after it are still listed completely.
+func VH_C13d() {
+	h, _ := newMemServer()
+	vsym.Assert(Do(h, Req{Method: "PUT", Path: "/bkt"}).Code() == 200, "C13d/create-bucket")
+	m := &verModel{stack: map[string][]verEntry{}, fuzzy: map[string]bool{}}
+	keys := []string{"j", "k/x", "z"}
+	vsym.Assert(setVersioning(h, "Enabled").Code() == 200, "C13d/enable")
+	m.mode = 1
+	// z already has a version that is older than anything the steps create
+	r0 := Do(h, BodyReq("PUT", "/bkt/z", c05Meta([]byte("0")), []byte("0")))
+	vsym.Assert(r0.Code() == 200, "C13d/put-status")
+	m.stack["z"] = append(m.stack["z"], verEntry{id: r0.Hdr.Get("x-amz-version-id"), body: []byte("0"), enabled: true})
+	n := vsym.Param("steps", 3)
+	for i := 0; i < n; i++ {
+		c05Step(h, m, keys)
+	}
+	total := len(m.stack["j"]) + len(m.stack["z"])
+	maxKeys := 1 + vsym.Choice("maxkeys", total+1)
+	got, prefixes, ok := c13Walk(h, "", "/", maxKeys, total+len(m.stack["k/x"]))
+	if !ok {
+		return
+	}
+	var js, zs []VersionEntry
+	seenZ := false
+	for _, it := range got {
+		if it.Key == "j" {
+			vsym.Assert(!seenZ, "C13d/grouped-by-ascending-key")
+			js = append(js, it)
+		} else {
+			vsym.Assert(it.Key == "z", "C13d/rolled-up-key-listed")
+			seenZ = true
+			zs = append(zs, it)
+		}
+	}
+	checkVersionGroup(js, m.stack["j"], m.mode)
+	checkVersionGroup(zs, m.stack["z"], m.mode)
+	want := []string{}
+	if len(m.stack["k/x"]) > 0 {
+		want = []string{"k/"}
+	}
+	vsym.Assert(sameStrings(prefixes, want), "C13d/common-prefixes")
+	vsym.Reach("C13d/done")
+}
